@@ -181,6 +181,28 @@ def gen_shared(rng):
     return hist, c, True
 
 
+def gen_moved(rng):
+    """a fact with unbound variables is used (query or retract, still open); inside that use a term containing those
+    - still unbound - variables is asserted as ANOTHER fact; then the clause binds them; the new fact is used while
+    the binding holds and after it is gone: it holds what the term was when it was asserted"""
+    c = {'compiled_histories': 1, 'terms_moved_from_an_open_use_into_a_new_fact': 1}
+    K, Vv, W, X2 = V('K'), V('Vv'), V('W'), V('X2')
+    src_fact = rng.choice([C('slot', A('a'), V('_')), C('slot', V('S'), V('S')), C('slot', A('a'), C('f', V('S1'), V('_')))])
+    take = rng.choice([C('slot', K, Vv), C('retract', C('slot', K, Vv))])
+    new = rng.choice([C('entry', K, Vv), C('entry', K, C('f', Vv)), C('entry', L([Vv], V('_')), K), C('entry', Vv, Vv)])
+    bind = rng.choice([C('=', Vv, A('filled')), C('=', Vv, C('f', A('x'), A('y'))), C('=', K, A('b'))])
+    use1 = C('entry', rng.choice([A('a'), X2, K]), W)
+    goals = [('call', take), ('call', C(rng.choice(['assertz', 'asserta']), new)), ('call', bind), ('call', use1)]
+    if rng.random() < 0.3:
+        goals.insert(2, ('call', C('entry', V('E1'), V('E2'))))
+    via_api = rng.random() < 0.5
+    hist = [('assert_fact', src_fact, True)] if via_api else [('load', [(src_fact, ('true',))], True)]
+    head = C('t', K, Vv, W, X2)
+    hist += [('load', [(head, gen.conj(goals))], False), ('run', 't', [V('Q0'), V('Q1'), V('Q2'), V('Q3')], rng.choice([None, 1])),
+             ('dump', [('entry', 2), ('slot', 2)]), ('run', 'entry', [V('R0'), V('R1')], None), ('dump', [('entry', 2)])]
+    return hist, c, True
+
+
 def gen_api(rng):
     c = {'api_histories': 1}
     tv = [V('T%d' % i) for i in range(1, 4)]
@@ -281,6 +303,8 @@ def run_case(ctx, seed, idx, tier):
     r0 = rng.random()
     if r0 < 0.12:
         hist, c, nt = gen_shared(rng)
+    elif r0 < 0.2:
+        hist, c, nt = gen_moved(rng)
     elif r0 < 0.64:
         hist, c, nt = gen_compiled(rng)
     else:
